@@ -299,6 +299,12 @@ bits }` (namespace CB.Gen.SafeGcdLimbs.UnsatInt) and the free functions `fg`, `d
   `let (delta_new, matrix) = jump(..); delta = delta_new;` (`localize_declared`; same values, same order), so `matrix` is a
   body-local `let` and not loop state; `debug_assert!(g.eq(..))` after the loop is skipped (it is hypothesis H_divsteps_done of
   C10, reported by the model's `.g`).
+  Last unit of that file (namespace CB.Gen.SafeGcdLimbs.Inverter; unit option `inverter`): `SafeGcdInverter::norm` of
+  `impl<const SAT_LIMBS: usize, const UNSAT_LIMBS: usize> SafeGcdInverter<SAT_LIMBS, UNSAT_LIMBS>` — the unit's limb count is
+  `UNSAT_LIMBS` (`UnsatInt<UNSAT_LIMBS>` is the word list; calls into the `UnsatInt` unit pass it on as that unit's `LIMBS`);
+  `&self` is the TUPLE of the struct's fields in declaration order, read from `struct SafeGcdInverter<..> { modulus, adjuster,
+  inverse }` on every run (`self.modulus` is component 1; a field of another type than `UnsatInt<UNSAT_LIMBS>` / an integer makes
+  the unit's functions `kept_last`); assignment to a `mut` parameter (`value = ..`) re-binds it like any variable.
 """
 import os, re, sys, json
 
@@ -3281,12 +3287,34 @@ Gen.ex, Gen.body = _gen_ex2, _gen_body
 UNSAT_CONSTS = {}
 
 _ty_of_g18, _lean_ty_g18 = ty_of, lean_ty
+# `struct SafeGcdInverter<..> { modulus: UnsatInt<UNSAT_LIMBS>, adjuster: UnsatInt<UNSAT_LIMBS>, inverse: i64 }` as read from the
+# source (unit option `inverter`): [(field, type)]
+INVERTER_FIELDS = []
+
+
+def read_inverter_fields(src):
+    INVERTER_FIELDS.clear()
+    m = re.search(r'\bstruct\s+SafeGcdInverter\s*<[^>]*>\s*\{([^}]*)\}', src)
+    if not m:
+        return
+    body = re.sub(r'#\[[^\]]*\]', '', re.sub(r'//[^\n]*', '', m.group(1)))
+    out = []
+    for f in [x.strip() for x in body.split(',') if x.strip()]:
+        f = re.sub(r'^pub(?:\([a-z]+\))?\s+', '', f)
+        n, t = [x.strip() for x in f.split(':', 1)]
+        try:
+            out.append((n, ty_of(t, None)))
+        except Unsupported:
+            return
+    INVERTER_FIELDS.extend(out)
 
 
 def ty_of(t, self_ty):
     t0 = t.strip()
-    if OPTS.get('unsat') and (re.match(r'UnsatInt\s*<\s*LIMBS\s*>$', t0) or (t0 == 'Self' and self_ty == 'UnsatInt')):
+    if OPTS.get('unsat') and (re.match(r'UnsatInt\s*<\s*(LIMBS|UNSAT_LIMBS)\s*>$', t0) or (t0 == 'Self' and self_ty == 'UnsatInt')):
         return 'unsat'       # an `UnsatInt<LIMBS>`: the list of its 62-bit words (each a `u64`), little endian
+    if OPTS.get('unsat') and t0 == 'Self' and self_ty == 'SafeGcdInverter' and INVERTER_FIELDS:
+        return tuple(t for _, t in INVERTER_FIELDS)      # `&self` of the inverter: the tuple of its fields, in declaration order
     return _ty_of_g18(t, self_ty)
 
 
@@ -3345,6 +3373,11 @@ def _g18_ex(self, e, env, want=None):
         t, ty = self.ex(e[1], env)
         if ty == 'unsat':
             return t, 'words'          # `x.0`: the `[u64; LIMBS]` inside, the same list (`x.0[i]` is a `u64`)
+    if k == 'nfield' and e[1] == ('var', 'self') and self.self_ty == 'SafeGcdInverter' and 'self' in env:
+        names = [n for n, _ in INVERTER_FIELDS]
+        if e[2] not in names:
+            raise Unsupported('field ' + e[2] + ' of the inverter')
+        return f'{env["self"][0]}{proj(names.index(e[2]), len(names))}', INVERTER_FIELDS[names.index(e[2])][1]
     if k == 'method':
         r, tr = self.ex(e[2], env)
         if tr == 'unsat':
@@ -3379,7 +3412,24 @@ def _g18_lookup(self, name, where):
     return _lookup_g18(self, name, where)
 
 
-Gen.ex, Gen.lookup, Gen.const = _g18_ex, _g18_lookup, _g18_const
+_call_g18 = Gen.call
+
+
+def _g18_call(self, name, args, env, where='self'):
+    ns, sig = self.lookup(name, where)
+    if (OPTS.get('unsat') and sig is not None and ns in GENERIC_NS and self.generic and GENERIC_NS[ns] != self.generic
+            and ns != self.ns):
+        # the caller names its limb count differently (`UNSAT_LIMBS` in `impl SafeGcdInverter`): the same `Nat` argument
+        old = GENERIC_NS[ns]
+        GENERIC_NS[ns] = self.generic
+        try:
+            return _call_g18(self, name, args, env, where)
+        finally:
+            GENERIC_NS[ns] = old
+    return _call_g18(self, name, args, env, where)
+
+
+Gen.ex, Gen.lookup, Gen.const, Gen.call = _g18_ex, _g18_lookup, _g18_const, _g18_call
 
 
 def _occurs(x, name):
@@ -3700,6 +3750,10 @@ FILES = [
              unsat=True, free_generic=True, skip_mods=['verif'], defer_lets=True,
              desc='fg, de: the matrix applied to (f, g) and to (d, e) modulo the modulus; divsteps: the outer loop', want=['fg', 'de', 'divsteps'],
              use=['safegcd']),
+        dict(key='inverter', rel=['src/modular/safegcd.rs'], ns='CB.Gen.SafeGcdLimbs.Inverter', self_ty='SafeGcdInverter',
+             generic='UNSAT_LIMBS', unsat=True, inverter=True, private=True,
+             desc='impl SafeGcdInverter<SAT_LIMBS, UNSAT_LIMBS>: norm (`&self` is the tuple of the fields modulus, adjuster, inverse)',
+             want=['norm']),
     ]),
 ]
 
@@ -3800,6 +3854,11 @@ def main():
             OPTS.update({k: u[k] for k in ('usize_nat',) if u.get(k)})
             OPTS.update({k: u[k] for k in ('unsat',) if u.get(k)})      # (G18) `UnsatInt<LIMBS>` values
             ext['unsat'] = reg.get('unsat')
+            if u.get('inverter'):
+                try:
+                    read_inverter_fields(open(path[0] if isinstance(path, list) else path).read())
+                except OSError:
+                    INVERTER_FIELDS.clear()
             if u.get('unsat'):
                 try:
                     read_unsat_consts(impl_blocks(open(path[0] if isinstance(path, list) else path).read(), 'UnsatInt'))
